@@ -53,7 +53,7 @@ func (r *Reader) readMdat(b *box) (err error) {
 	}
 	header, err := readExifHeader(&inner, ifds.IFD0, imagetype.ImageHEIF)
 	if err != nil {
-		panic(err)
+		return err
 	}
 
 	if r.ExifReader != nil {
